@@ -181,6 +181,30 @@ Proof.
 Qed.
 End View3.
 
+(* every flat index is the C-order index of exactly one (o, f, r):
+   r = i mod inner, f = (i / inner) mod F, o = i / inner / F *)
+Lemma flat_index_decompose outer F inner i :
+  (i < outer * F * inner)%nat ->
+  let r := (i mod inner)%nat in
+  let f := ((i / inner) mod F)%nat in
+  let o := (i / inner / F)%nat in
+  (o < outer /\ f < F /\ r < inner /\ i = (o * F + f) * inner + r)%nat.
+Proof.
+  intros H r f o.
+  assert (Hi : inner <> 0%nat) by (intros ->; lia).
+  assert (HF : F <> 0%nat) by (intros ->; lia).
+  pose proof (Nat.div_mod i inner Hi) as E1.
+  pose proof (Nat.div_mod (i / inner) F HF) as E2.
+  pose proof (Nat.mod_upper_bound i inner Hi).
+  pose proof (Nat.mod_upper_bound (i / inner) F HF).
+  fold r in E1. fold f o in E2.
+  assert (Hj : (i / inner < outer * F)%nat).
+  { apply Nat.div_lt_upper_bound; auto. lia. }
+  assert (Ho : (o < outer)%nat).
+  { apply Nat.div_lt_upper_bound; auto. lia. }
+  repeat split; auto. unfold r, f, o in *. nia.
+Qed.
+
 (* ---------------- shapes ---------------- *)
 Lemma prodZ_cons x l : prodZ (x :: l) = (x * prodZ l)%Z.
 Proof. reflexivity. Qed.
